@@ -164,7 +164,7 @@ UNITS = [
     U('Group_write_limits', RC, 'h_L_Group_write', ['Group__write/contract_L_Group__write'], ['C17'],
       replace=['vf_stream_write/contract_vf_stream_write', 'ezc3d__toUpper/contract_ezc3d__toUpper'], unwind=5, timeout=900,
       props={'memsafe': [], 'ub': [], 'frame': []}),
-    U('c3d_frame_guards', CF, 'h_c3d_frame', ['c3d__frame/contract_c3d__frame'], ['C07', 'C10', 'C13', 'C06', 'C18'],
+    U('c3d_frame_guards', CF, 'h_c3d_frame', ['c3d__frame/contract_c3d__frame'], ['C07', 'C10', 'C13', 'C06', 'C18', 'C05', 'C01'],
       replace=['Parameters__group__str/contract_dir_Parameters__group__str', 'Group__parameter__str/contract_dir_Group__parameter__str',
                'Points__pointIdx/contract_rec_Points__pointIdx', 'Data__frame__Frame_sz/contract_rec_Data__frame__Frame_sz',
                'c3d__updateParameters/contract_rec_c3d__updateParameters', 'vf_vec_string_ctor_copy/contract_copy_vf_vec_string_ctor_copy'],
